@@ -430,6 +430,7 @@ func c12IndexOf(ss []string, s string) int {
 func init() {
 	register("C12", func(c *Ctx) {
 		t0 := time.Now()
+		c12WatcherEcho(c)
 		repo := c12Repo()
 		specs := c12ParseSpecs(repo)
 		nR, nW := 0, 0
